@@ -52,6 +52,27 @@ def node_of(cfg, call):
     return None
 
 
+def sole_def(fnorm, n, name):
+    """Value expression of the only definition of local `name` reaching node n (also for calls the
+    normaliser refuses to substitute, e.g. x.pop(0) / f.read(..)), else None."""
+    ds = fnorm.rd.get(n.id, {}).get(name)
+    if not ds or len(ds) != 1:
+        return None
+    (d,) = tuple(ds)
+    if d < 0:
+        return None
+    return fnorm._def_value(fnorm.cfg.nodes[d], name)
+
+
+def deps_through(inner, outer, e):
+    """depends_on of an expression of a nested function, continued through the enclosing function's locals."""
+    defs = {}
+    for f in (outer, inner):
+        for k, v in def_exprs(f).items():
+            defs.setdefault(k, []).extend(v)
+    return depends_on(inner, e, defs=defs)
+
+
 def lambda_calls(t):
     """Calls in the body of a lambda (or [] for anything else)."""
     if isinstance(t, ast.Lambda):
@@ -82,7 +103,7 @@ def run(ctx: Context):
     # -- 1. what the convergent key is a function of ------------------------
     with ctx.rule("C05.1", "R7/R2", "convergent key = digest of convergence_hasher(params[0], params[2], params[3], "
                   "self.convergence) updated with every chunk until the empty read; hashutil tag depends on all four",
-                  expected=6) as r:
+                  expected=5) as r:
         # (a) hashutil
         tg = idx.func("util.hashutil:_convergence_hasher_tag")
         tps = first_positional_params(tg)
@@ -159,7 +180,6 @@ def run(ctx: Context):
         inner = bu.nested.get("_got_size")
         if inner is None:
             raise AnchorVanished("BaseUploadable.get_all_encoding_parameters._got_size")
-        odefs = def_exprs(bu)
         tuples = [x.value for x in func_own_nodes(inner) if isinstance(x, ast.Assign)
                   and isinstance(x.value, ast.Tuple) and len(x.value.elts) == 4]
         if not tuples:
@@ -168,11 +188,11 @@ def run(ctx: Context):
             r.site(inner, t, "parameter tuple")
             for pos, key, others in ((0, "encoding_param_k", ("encoding_param_n", "encoding_param_happy")),
                                      (2, "encoding_param_n", ("encoding_param_k", "encoding_param_happy"))):
-                dep = depends_on(inner, t.elts[pos]) | depends_on(bu, t.elts[pos], defs=odefs)
+                dep = deps_through(inner, bu, t.elts[pos])
                 ok = any(d.endswith(key) for d in dep) and not any(d.endswith(o) for d in dep for o in others)
                 r.require(ok, inner, inner.loc(t), "element %d of the encoding-parameter tuple (%s) is not the %s "
                           "setting" % (pos, src(inner, t.elts[pos]), key))
-            dep = depends_on(inner, t.elts[3]) | depends_on(bu, t.elts[3], defs=odefs)
+            dep = deps_through(inner, bu, t.elts[3])
             r.require(any(d.endswith("max_segment_size") for d in dep), inner, inner.loc(t),
                       "element 3 of the encoding-parameter tuple (%s) is not derived from the segment size" % src(inner, t.elts[3]))
         # (d) the read loop
@@ -268,7 +288,7 @@ def run(ctx: Context):
 
     # -- 2. key choice, storage index, read cap ------------------------------
     with ctx.rule("C05.2", "R1/R7", "convergent branch iff self.convergence is not None; random key = os.urandom(16); "
-                  "storage index = storage_index_hash(key); encryptor and read cap use the same key", expected=6) as r:
+                  "storage index = storage_index_hash(key); encryptor and read cap use the same key", expected=7) as r:
         fn = idx.func(FH + ".get_encryption_key")
         cfg = fn.cfg()
         fnorm = FlowNorm(fn)
@@ -299,16 +319,22 @@ def run(ctx: Context):
         st = rk.cfg().find(stores("self._key"))
         if not st:
             raise AnchorVanished("_get_encryption_key_random no longer stores self._key")
+        def urandom16(f, v):
+            if not (isinstance(v, ast.Call) and call_name(v) == "os.urandom" and len(v.args) == 1 and not v.keywords):
+                return False
+            try:
+                return folder.fold(v.args[0], f.module, f.cls) == 16
+            except NotConstant:
+                return False
         for n in st:
             v = assign_value(n, "self._key")
-            ok = isinstance(v, ast.Call) and call_name(v) == "os.urandom" and len(v.args) == 1
-            size = None
-            if ok:
-                try:
-                    size = folder.fold(v.args[0], rk.module, rk.cls)
-                except NotConstant:
-                    size = None
-            r.require(ok and size == 16, rk, rk.loc(n.ast), "random key is %s, expected os.urandom(16)" % src(rk, v))
+            ok = urandom16(rk, v)
+            if not ok and isinstance(v, ast.Call) and call_tail(v) == "random_key" and not v.args:
+                # hashutil.random_key() is the same source
+                hk = idx.func("util.hashutil:random_key")
+                hr = hk.cfg().find(is_return)
+                ok = bool(hr) and all(urandom16(hk, x.ast.value) for x in hr)
+            r.require(ok, rk, rk.loc(n.ast), "random key is %s, expected os.urandom(16)" % src(rk, v))
         # convergence stored / passed through
         init = idx.func(FH + ".__init__")
         ip = first_positional_params(init)
@@ -555,7 +581,16 @@ def run(ctx: Context):
         gf = got[0]
         dpar = first_positional_params(gf)[0]
         gfn = FlowNorm(gf)
-        acc = norm_src("%s + %s" % (ppar, dpar))
+        acc = "%s + %s" % (ppar, dpar)
+
+        def concat(n, e):
+            """e is <accumulated> + <new data>, in this order (list concatenation is not commutative,
+            the arithmetic normal form cannot be used)."""
+            e = gfn.resolve(n, e)
+            if not (isinstance(e, ast.BinOp) and isinstance(e.op, ast.Add)):
+                return False
+            l, rr = gfn.resolve(n, e.left), gfn.resolve(n, e.right)
+            return isinstance(l, ast.Name) and l.id == ppar and isinstance(rr, ast.Name) and rr.id == dpar
         rem = re.compile(r"^\(%s \+ -1\*sum\(\[len\((\w+)\) for \1 in %s\]\)\)$" % (re.escape(spar), re.escape(dpar)))
         rets = gf.cfg().find(is_return)
         r.require(bool(rets), gf, gf.loc(), "read_this_many_bytes callback returns nothing")
@@ -563,14 +598,14 @@ def run(ctx: Context):
             v = gfn.resolve(n, n.ast.value)
             if isinstance(v, ast.Call) and call_tail(v) == "read_this_many_bytes":
                 a = [arg(v, 0, upar), arg(v, 1, spar), arg(v, 2, ppar)]
-                ok = a[0] is not None and attr_path(a[0]) == upar and a[2] is not None and gfn.norm(n, a[2]) == acc
+                ok = a[0] is not None and attr_path(a[0]) == upar and a[2] is not None and concat(n, a[2])
                 r.require(ok, gf, gf.loc(n.ast), "the recursive read passes %s as accumulated data, expected %s" % (
                     src(gf, a[2]), acc))
                 remn = gfn.norm(n, a[1]) if a[1] is not None else ""
                 r.require(rem.match(remn) is not None, gf, gf.loc(n.ast), "the recursive read asks for %s bytes, "
                           "expected %s minus the bytes just received" % (remn, spar))
             else:
-                r.require(gfn.norm(n, n.ast.value) == acc, gf, gf.loc(n.ast), "read_this_many_bytes delivers %s, "
+                r.require(concat(n, n.ast.value), gf, gf.loc(n.ast), "read_this_many_bytes delivers %s, "
                           "expected %s (every piece, in order)" % (src(gf, n.ast.value), acc))
         # the recursion stops only when nothing remains
 
@@ -587,9 +622,10 @@ def run(ctx: Context):
         reach = cg.reachable(list(lu.methods.values()) + [rt, gf])
         r.site("LiteralUploader reachable functions: %d" % len(reach))
         r.count(len(reach))
-        for f in reach:
-            if not f.qual.startswith("allmydata.immutable.upload:"):
+        for q in sorted(reach):
+            if not q.startswith("allmydata.immutable.upload:") or q not in idx.funcs:
                 continue
+            f = idx.funcs[q]
             for c in calls_in_func(f, None, into_lambda=True):
                 if call_tail(c) in REMOTE_TAILS:
                     r.violation(f, f.loc(c), "the literal upload path contacts servers: %s in %s" % (src(f, c), short(f)))
@@ -628,9 +664,15 @@ def run(ctx: Context):
                 if call_tail(c) in REMOTE_TAILS:
                     r.violation(m, m.loc(c), "LiteralFileNode.%s contacts servers: %s" % (m.name, src(m, c)))
         rd = idx.func("immutable.literal:LiteralFileNode.read")
-        for c in calls_in_func(rd, "BytesIO"):
-            dep = depends_on(rd, c.args[0]) if c.args else set()
-            r.require("self.u.data" in dep, rd, rd.loc(c), "LiteralFileNode.read serves %s, not the embedded data" % src(rd, c))
+        rdefs = def_exprs(rd)
+        served = calls_in_func(rd, "BytesIO")
+        r.require(bool(served), rd, rd.loc(), "LiteralFileNode.read no longer serves a BytesIO of the embedded data")
+        for c in served:
+            a = c.args[0] if c.args else None
+            vals = rdefs.get(a.id, []) if isinstance(a, ast.Name) else ([a] if a is not None else [])
+            r.require(bool(vals) and all(any(l == "self.u.data" or l.startswith("self.u.data.") for l in leaves(v))
+                                         for v in vals), rd, rd.loc(c),
+                      "LiteralFileNode.read serves %s, which is not always a slice of the embedded data" % src(rd, c))
         dl = idx.func("immutable.literal:LiteralFileNode.download_best_version")
         for n in dl.cfg().find(is_return):
             got = N(dl).norm(n.ast.value)
@@ -655,7 +697,7 @@ def run(ctx: Context):
             a0, a1 = arg(c, 0), arg(c, 1)
             r.require(a0 is not None and attr_path(a0) == "self._encryptor", fn, fn.loc(c),
                       "chunks are encrypted with %s, not the upload's single encryptor" % src(fn, a0))
-            chunk = fnorm.resolve(n, a1) if a1 is not None else None
+            chunk = sole_def(fnorm, n, a1.id) if isinstance(a1, ast.Name) else a1
             ok = isinstance(chunk, ast.Call) and isinstance(chunk.func, ast.Attribute) and chunk.func.attr == "pop" \
                 and attr_path(chunk.func.value) == dpar and len(chunk.args) == 1 \
                 and isinstance(chunk.args[0], ast.Constant) and chunk.args[0].value == 0
